@@ -13,7 +13,7 @@ LOG=$OUT/eval.log
 : > "$LOG"
 cd "$WT" || exit 2
 echo "== with change: baseline tests" >>"$LOG"
-cargo test --workspace --offline --lib 2>&1 | grep -E "^test result" >>"$LOG"
+cargo test --workspace --offline --lib 2>&1 | grep -E "^test result|^test .* FAILED" >>"$LOG"
 cargo test --workspace --offline --doc 2>&1 | grep -E "^test result" >>"$LOG"
 echo "== with change: demo" >>"$LOG"
 cargo test --offline --test seeded_demo 2>&1 | grep -E "^test result|^test .* (ok|FAILED)" >>"$LOG"
